@@ -383,7 +383,7 @@ class EngineB:
             res.bump("probe:op_raised")
             res.bump("raised:" + op + ":" + type(e).__name__)
             res.events.append([i, op, "raised", type(e).__name__])
-            for o in operand_ids:
+            for o in heap.ids():
                 heap.resnap(o)
             return None
         prop = "C05"
@@ -399,7 +399,9 @@ class EngineB:
                     continue
                 if spec.known_mutates and spec.known_mutates in tolerate:
                     res.bump("probe:known_" + spec.known_mutates)
-                    heap.resnap(o)
+                    for q in heap.ids():
+                        if heap.find(q) == heap.find(o):
+                            heap.resnap(q)
                     continue
                 if self.prop == "C05":
                     return self._viol(prop, "operands_unchanged", op, i, f"{op}({self._describe(step)}) modified operand #{k} ({heap.kinds[o]}): {ch}")
@@ -461,6 +463,9 @@ class EngineB:
                 new_ids.append(nid)
         if new_ids:
             step["out"] = outs
+        if self.prop != "C05":
+            for q in heap.ids():  # C19 histories judge only the malformed steps; keep snapshots current
+                heap.resnap(q)
         res.bump("ops_checked")
         res.states.add(H(op, tuple(sorted(heap.kinds.values())), len({heap.find(o) for o in heap.ids()})) & 0xFFFFFFFF)
         res.events.append([i, op, [heap.kinds[n] for n in new_ids]])
@@ -543,9 +548,10 @@ class EngineB:
             raised = e
             out = None
         if raised is None:
-            if spec.known and spec.known in tolerate:
-                res.bump("probe:known_" + spec.known)
-                for o in operand_ids:
+            known = spec.known(operands, step) if callable(spec.known) else spec.known
+            if known and known in tolerate:
+                res.bump("probe:known_" + known)
+                for o in heap.ids():
                     heap.resnap(o)
                 return None
             if self.prop == "C19":
